@@ -24,6 +24,7 @@ keys; AEAD: only the matching key opens (checked per run on real keys by the `pa
 -/
 import Nebula.Lemmas.MachineTrace
 import Nebula.Lemmas.MachinePairSys
+import Nebula.Lemmas.WindowSeed
 import Nebula.Props.C08
 
 namespace Nebula.Props.C06
@@ -241,5 +242,44 @@ example :
      | some rI, some rR => decide (toy.binding s.i.n = toy.binding s.r.n) && paired rI rR && rI.remoteIndex == 200
      | _, _ => false) = true := by
   decide
+
+/-! ### `newConnectionStateFromResult`: replay-window seeding (on the C11 model of bits.go) -/
+
+/-- For every `MessageIndex` below `ReplayWindow`, `newConnectionStateFromResult` succeeds, starts
+`messageCounter` at `MessageIndex` (so the first data packet is sent with `MessageIndex + 1`), and
+leaves a replay window in which exactly the counters `0..MessageIndex` — the handshake messages
+themselves — are already seen: each of them is refused by `Check`, and `MessageIndex + 1` is
+accepted.  (For IX, `MessageIndex = 2` by `pair_agreement`.) -/
+theorem window_seeded (mi : Nat) (h : mi < 8192) :
+    ∃ b, WindowSeed.seed mi = some (b, mi) ∧
+      (∀ i : Nat, i ≤ mi → Bits.check b (BitVec.ofNat 64 i) = false) ∧
+      Bits.check b (BitVec.ofNat 64 (mi + 1)) = true := by
+  obtain ⟨b, hb, r⟩ := WindowSeed.seed_refines mi h
+  refine ⟨b, hb, ?_, ?_⟩
+  · intro i hi
+    rw [Lemmas.Bits.check_refines r]
+    have hn : (BitVec.ofNat 64 i).toNat = i := by
+      simp only [BitVec.toNat_ofNat]; apply Nat.mod_eq_of_lt; omega
+    rw [hn]
+    have : (WindowSeed.specSeed 8192 mi).contains i = true := by
+      simp only [List.contains_eq_mem, decide_eq_true_eq]
+      exact (WindowSeed.specSeed_mem 8192 mi i).mpr hi
+    simp only [Spec.Window.accepts, this, Bool.not_true, Bool.false_and]
+  · rw [Lemmas.Bits.check_refines r]
+    have hn : (BitVec.ofNat 64 (mi + 1)).toNat = mi + 1 := by
+      simp only [BitVec.toNat_ofNat]; apply Nat.mod_eq_of_lt; omega
+    rw [hn]
+    have hnot : (WindowSeed.specSeed 8192 mi).contains (mi + 1) = false := by
+      simp only [List.contains_eq_mem, decide_eq_false_iff_not]
+      intro hm; have := (WindowSeed.specSeed_mem 8192 mi (mi + 1)).mp hm; omega
+    have hhi : Spec.Window.hi (WindowSeed.specSeed 8192 mi) ≤ mi :=
+      WindowSeed.hi_le_of_all_le _ _ (fun x hx => (WindowSeed.specSeed_mem 8192 mi x).mp hx)
+    simp only [Spec.Window.accepts, hnot, Bool.not_false, Bool.true_and, Bool.or_eq_true, decide_eq_true_eq]
+    left; left; omega
+
+/-- A `MessageIndex` that does not fit the window is refused (instead of spinning the seed loop). -/
+theorem window_seed_refuses (mi : Nat) (h : 8192 ≤ mi) : WindowSeed.seed mi = none := by
+  have hrw : WindowSeed.replayWindow = 8192 := by decide
+  simp [WindowSeed.seed, hrw, h]
 
 end Nebula.Props.C06
